@@ -797,6 +797,9 @@ class Manager:
         # TODO: Refactor this method.
 
         value = None
+        # Events fired by this step are effects of the task's event
+        # (same as for events fired by ordinary handlers in _dispatcher).
+        self._currently_handling = event
         try:
             value = next(task)
             if isinstance(value, CallValue):
@@ -849,6 +852,7 @@ class Manager:
             elif value is not None:
                 event.value.value = value
         except StopIteration:
+            self._currently_handling = None
             event.waitingHandlers -= 1
             self.unregisterTask((event, task, parent))
 
@@ -878,6 +882,8 @@ class Manager:
                 self.fire(event.child('failure', event, err), *event.channels)
 
             self.fire(exception(*err, handler=None, fevent=event))
+        finally:
+            self._currently_handling = None
 
     def tick(self, timeout=-1):
         """
